@@ -339,6 +339,12 @@ class ModelLoader(object):
         Populate a *metamodel* with an instance previously encountered from 
         input that was defined using named arguments.
         '''
+        if len(stmt.names) != len(stmt.values):
+            raise ParsingException("%s:%d:%d names but %d values" % (stmt.filename,
+                                                                     stmt.lineno,
+                                                                     len(stmt.names),
+                                                                     len(stmt.values)))
+        
         if stmt.kind.upper() not in metamodel.metaclasses:
             ModelLoader._populate_matching_class(metamodel, stmt.kind, 
                                                  stmt.names, stmt.values)
